@@ -45,6 +45,7 @@ add('acre', 4840*(36*inch)**2, meter=2); add('hectare ha', 10000, meter=2); add(
 # speed, acceleration
 add('knot kn', F(1852,3600), meter=1, second=-1); add('mph', 63360*inch/3600, meter=1, second=-1); add('kph kmh', F(1000,3600), meter=1, second=-1)
 add('c lightspeed light_speed', 299792458, meter=1, second=-1); add('gravity', g0, meter=1, second=-2)
+add('Gal Gals gallileo', F(1,100), meter=1, second=-2)
 # force, pressure, energy, power
 add('newton N', 1, kilogram=1, meter=1, second=-2); add('dyne dynes dyn', F(1,10**5), kilogram=1, meter=1, second=-2)
 add('lbf', lb*g0, kilogram=1, meter=1, second=-2); add('gf pond', g0/1000, kilogram=1, meter=1, second=-2)
